@@ -37,7 +37,19 @@ TOL = 2e-5
 
 
 def gen_cases(seed, tier):
-    return sampling.gen_cases(seed, tier, 1, 340, 12000)
+    cases = sampling.gen_cases(seed, tier, 1, 340, 12000)
+    rng = np.random.default_rng([seed, 101])
+    for c in cases:
+        for call in c["calls"]:
+            if call["fn"].startswith("adaptive"):
+                call["p2"] = "reverse"        # the second call of an adaptive sampler gets the rows in reverse order
+        if c["k"] > 1 and c["info"]["dep"] and not c["info"].get("stress") and rng.random() < 0.5:
+            # every parameter dependent domain with several rows gets adaptive histories with changing rows
+            for fn in ("adaptive_thr", "adaptive_rnd"):
+                c["calls"].append({"lvl": "sampler", "target": "interior", "fn": fn, "by": "n",
+                                   "n": int(rng.choice([3, 8, 20])), "ratio": float(rng.choice([0.3, 0.5, 0.7])),
+                                   "p2": "reverse"})
+    return cases
 
 
 def _kcls(k):
@@ -94,6 +106,8 @@ def judge_obs(o, node, bnode, env, k, info, res):
     res["counters"]["rows_judged"] = res["counters"].get("rows_judged", 0) + int((~amb).sum())
     res["counters"]["rows_ambiguous"] = res["counters"].get("rows_ambiguous", 0) + int(amb.sum())
     res["counters"]["rows_" + call["target"]] = res["counters"].get("rows_" + call["target"], 0) + N
+    if o.extra.get("p2") and info["dep"]:
+        res["counters"]["adaptive_rows_after_changed_params"] = res["counters"].get("adaptive_rows_after_changed_params", 0) + N
     if bad.any():
         f = tnode.phi(X, envrows)
         i = int(np.argmax(np.where(bad, np.abs(f), -1)))
